@@ -328,8 +328,36 @@ def write_inputs_c(vals, path, header=""):
 
 NATIVE_FLAGS = ["-g", "-O0", "-fsanitize=address,undefined", "-fno-sanitize-recover=undefined",
                 "-fno-omit-frame-pointer", "-w", "-DVERIF_REPLAY",
-                "-ffunction-sections", "-fdata-sections", "-Wl,--gc-sections",
-                "-Wl,--unresolved-symbols=ignore-all"]
+                "-ffunction-sections", "-fdata-sections"]
+NATIVE_LINK = ["-Wl,--gc-sections", "-Wl,--allow-multiple-definition"]
+_ARCHIVE_LOCK = threading.Lock()
+_ARCHIVE = {}
+
+
+def native_archive():
+    """libqb's own units (current /repo tree) as a static archive: resolves whatever the included units reference
+    but the harness does not define; harness definitions come first on the link line and win."""
+    with _ARCHIVE_LOCK:
+        if "path" in _ARCHIVE:
+            return _ARCHIVE["path"]
+        d = os.path.join(_ARCHIVE.get("outdir") or tempfile.mkdtemp(prefix="verif-nativelib-"), "nativelib")
+        shutil.rmtree(d, ignore_errors=True)
+        os.makedirs(d, exist_ok=True)
+        objs = []
+        for src in native_lib_sources():
+            o = os.path.join(d, os.path.basename(src)[:-2] + ".o")
+            rc, out, err, dt, to = run(["gcc", "-c"] + NATIVE_FLAGS + CC_FLAGS + [src, "-o", o], timeout=300)
+            if rc == 0:
+                objs.append(o)
+        a = os.path.join(d, "libqb_native.a")
+        run(["ar", "rcs", a] + objs, timeout=120)
+        _ARCHIVE["path"] = a if os.path.exists(a) else None
+        for o in objs:
+            try:
+                os.unlink(o)
+            except OSError:
+                pass
+        return _ARCHIVE["path"]
 
 
 def native_replay(ob, vals, outdir, extra_defs=(), entry=None):
@@ -347,7 +375,7 @@ def native_replay(ob, vals, outdir, extra_defs=(), entry=None):
         f.write("VERIF_MAIN\n")
     exe = os.path.join(outdir, "replay.bin")
     cmd = ["gcc"] + NATIVE_FLAGS + CC_FLAGS + ["-D" + d for d in ob.defs] + ["-D" + d for d in extra_defs] + \
-          [main_c, "-o", exe, "-lpthread", "-lrt", "-ldl"]
+          [main_c] + NATIVE_LINK + ["-o", exe] + ([native_archive()] if native_archive() else []) + ["-lpthread", "-lrt", "-ldl"]
     with open(os.path.join(outdir, "replay.sh"), "w") as f:
         f.write("#!/bin/sh\n# rebuilds the harness natively from the current /repo tree and runs the counterexample\n")
         f.write("set -e\n" + " ".join("'%s'" % c for c in cmd) + "\n")
@@ -503,7 +531,9 @@ def run_obligation(ob, work, extra_defs=(), want_trace_for=None):
         elif not by["W"]:
             res["status"] = "vacuous"
             res["detail"] = "harness has no reachability witness"
-        elif unreached_W:
+        elif unreached_W and not extra_defs:
+            # (in a re-run with known-finding triggers assumed away, scenarios that consist of the trigger are
+            #  legitimately cut; reachability was established by the unrestricted run of the same obligation)
             res["status"] = "vacuous"
             res["detail"] = "witness not reachable: " + ", ".join(p["description"] for p in unreached_W[:5])
         elif not (by["P"] or by["A"] or by["M"]):
@@ -599,6 +629,8 @@ def run_check(pid, tier, obligations, meta):
     outdir = os.path.join(VERIF, "out", pid)
     shutil.rmtree(outdir, ignore_errors=True)
     os.makedirs(outdir, exist_ok=True)
+    _ARCHIVE.clear()
+    _ARCHIVE["outdir"] = outdir
     known, fixed = load_known()
     lines, results, violations, infra = [], [], 0, []
     kf_reported = {}
